@@ -135,16 +135,18 @@ func (c *Compiler) compileTryStmt(node *parser.TryStmt) error {
 		}
 	}
 
-	c.tryCatchIndex--
 	// always emit OpSetupFinally to cleanup
 	if node.Finally != nil {
 		finallyPos = c.emit(node.Finally, OpSetupFinally)
+		// the handler of this statement is still installed while its finally
+		// block runs, so the block is compiled inside the statement's index
 		if err := c.Compile(node.Finally); err != nil {
 			return err
 		}
 	} else {
 		finallyPos = c.emit(node, OpSetupFinally)
 	}
+	c.tryCatchIndex--
 
 	c.changeOperand(optry, catchPos, finallyPos)
 	if node.Catch != nil {
